@@ -230,7 +230,7 @@ func clientAddr(k int) string { return fmt.Sprintf("10.%d.%d.%d:5%03d", k%7, (k/
 func TestC02Failover(t *testing.T) {
 	sub := lab.Sub("failover-histories", "rapid histories over {eject(i,window) via MarkBackendUnhealthy, incident (all / all but one / a drawn subset of the pool ejected at once with one window), probe-straddles-ejection (with active checks on: a probe whose 200 is late is under way when its backend is ejected; the answer arrives inside the window), advance, add (sometimes under a name already in use), remove(name), set_strategy, request(client), hold (request parked in a backend), release, spin(k), steady (a request every 30 ms from 300 ms before to 200 ms after the next window expiry), inflight (a backend's in-flight count set to 0/1/99/100/101/500)} "+
 		"against the real LoadBalancer.ServeHTTP in virtual time (L1 scripted backends, all answer 200 to requests and to probes), 5 strategies x pools of 1..6 x weights 1..6 "+
-		"x health-check configuration {active checks off / on with interval 2-3600 s (shorter and far longer than the windows), timeout 1-5 s, 4 probe paths; Helios's own ticker and prober run} x {passive checks off / on, threshold 1-5, unhealthy_timeout 1-60 s} x {circuit breaker off / on}; oracle: served backend is outside every unhealthy window the harness issued, "+
+		"x health-check configuration {active checks off / on with interval 2-3600 s (shorter and far longer than the windows), timeout 1-5 s, 4 probe paths; Helios's own ticker and prober run} x {passive checks off / on, threshold 1-5, unhealthy_timeout 1-60 s} x {circuit breaker off / on} x how the clients appear to Helios {plain IPv4 peer / one of the shapes in client_test.go for every client / a mixed population: IPv6, IPv4-mapped, zoned link-local and port-less peers, X-Forwarded-For with a chain, ip:port, brackets, 'unknown', obfuscated identifiers, host names, blanks or junk, X-Real-IP}; oracle: served backend is outside every unhealthy window the harness issued, "+
 		"and 'no healthy backend' 503 only when every pool member is inside one; non-trivial = history with a request issued while 1 <= ejected < pool size")
 	sub.NontrivialFloor(0.35)
 	sub.Floor("steady-traffic-across-expiry", 0.08)
@@ -247,6 +247,15 @@ func TestC02Failover(t *testing.T) {
 		// what the requests look like (method, headers) is drawn per history: no clause of the statement depends on it
 		dress := lab.DrawDressPlan(rt)
 		nreq := 0
+		// how the clients appear to Helios (peer address form, X-Forwarded-For / X-Real-IP contents): the statement holds for every client address
+		var cplan clientPlan
+		switch rapid.IntRange(0, 3).Draw(rt, "client_mode") {
+		case 2:
+			cplan = clientPlan{Mode: 1, One: rapid.IntRange(1, len(clientShapes)-1).Draw(rt, "client_shape")}
+		case 3:
+			cplan = clientPlan{Mode: 2, One: rapid.IntRange(0, len(clientShapes)-1).Draw(rt, "client_shift")}
+		}
+		lastClient := ""
 		// what the backends' addresses look like (one host name each / one machine with many ports / ...)
 		lab.SetHostStyle(rapid.IntRange(0, lab.HostStyles-1).Draw(rt, "host_style"))
 		defer lab.SetHostStyle(0)
@@ -316,6 +325,8 @@ func TestC02Failover(t *testing.T) {
 						ch := make(chan result, 1)
 						nreq++
 						preq := dress.At(nreq).Request("/p", client)
+						cplan.dressClient(preq, client)
+						lastClient = describeClient(preq)
 						go func() {
 							s, b, _, _ := lab.Serve(w.lb, preq)
 							ch <- result{s, b}
@@ -334,7 +345,10 @@ func TestC02Failover(t *testing.T) {
 						return
 					}
 					nreq++
-					s, b, _, _ := lab.Serve(w.lb, dress.At(nreq).Request("/r", client))
+					rreq := dress.At(nreq).Request("/r", client)
+					cplan.dressClient(rreq, client)
+					lastClient = describeClient(rreq)
+					s, b, _, _ := lab.Serve(w.lb, rreq)
 					if w.fn.Arrivals() > before+1 {
 						viol = "one request reached backends more than once"
 						return
@@ -569,13 +583,13 @@ func TestC02Failover(t *testing.T) {
 		if loaded {
 			labels = append(labels, "inflight-99plus")
 		}
-		sub.Case(map[string]any{"strategy": strategy, "weights": weights, "health": hc, "history": hist, "dress": dress, "hosts": hostLabel}, partial > 0, append(labels, dress.Label(), hostLabel)...)
+		sub.Case(map[string]any{"strategy": strategy, "weights": weights, "health": hc, "history": hist, "dress": dress, "hosts": hostLabel, "clients": cplan}, partial > 0, append(labels, dress.Label(), hostLabel, cplan.Label())...)
 		sub.Count("probes", fn.TotalProbes())
 		sub.Count("requests-first-after-a-window-ended", afterExpiry)
 		sub.Count("requests", requests)
 		sub.Count("requests-while-partially-ejected", partial)
 		if viol != "" {
-			rt.Fatalf("strategy %s weights %v health checks %+v history %v: %s", strategy, weights, hc, hist, viol)
+			rt.Fatalf("strategy %s weights %v health checks %+v history %v: %s [%s; %s]", strategy, weights, hc, hist, viol, cplan.Label(), lastClient)
 		}
 	})
 }
